@@ -17,9 +17,30 @@ References are transparent (&P evaluates to the value of P); deref is identity.
 This is algebraic value numbering over the compiler's IR: no execution, no
 path conditions handed to a solver."""
 import re
+import sys
+import threading
 from mir import place_str, op_str, loc_str
 
 MAX_INLINE = 6
+sys.setrecursionlimit(max(sys.getrecursionlimit(), 12000))
+
+
+def run_with_big_stack(fn, *a, **kw):
+    """deep backward walks over large bodies recurse deeply: run on a thread with a large stack"""
+    out = {}
+
+    def tgt():
+        try:
+            out["r"] = fn(*a, **kw)
+        except BaseException as e:  # noqa
+            out["e"] = e
+    threading.stack_size(512 * 1024 * 1024)
+    t = threading.Thread(target=tgt)
+    t.start()
+    t.join()
+    if "e" in out:
+        raise out["e"]
+    return out.get("r")
 
 
 def strip_generics(path):
@@ -137,6 +158,7 @@ class Eval:
         self.opaque = set(opaque)  # local callee keys that are NOT inlined
         self.max_inline = max_inline
         self.ctx = Ctx()
+        self._active = set()
         self.ambient = frozenset()   # presence conditions under which the code being inlined runs
         self.site_conds = {}         # call site -> [ambient condition sets]
         self.site_terms = {}         # call site -> [call terms]
@@ -386,7 +408,15 @@ class Eval:
                 return self.entry_val(env, local, proj)
             return self.unknown("multiple defs for index local _%d" % local)
         b, i = point
-        return self._lookup_in_block(env, pk, b, i, frozenset())
+        # cross-place cycles (loop-carried values defined in terms of each other) are cut here
+        ak = (env.id, pk, b, i)
+        if ak in self._active:
+            return ("loopback",)
+        self._active.add(ak)
+        try:
+            return self._lookup_in_block(env, pk, b, i, frozenset())
+        finally:
+            self._active.discard(ak)
 
     def _defs_of_local(self, body, local):
         if body._defs is None:
